@@ -48,6 +48,7 @@ func VerifHarness_C18_Updates() {
 		idx := verifNondetInt(verifName("idx", u))
 		verifAssume(idx >= 0 && idx < n)
 		val := verifNondetBig(verifName("val", u))
+		verifAssume(verifBigLt(val, verifFieldOrder()))
 		for i := 0; i < n; i++ {
 			if i != idx {
 				continue
@@ -63,6 +64,57 @@ func VerifHarness_C18_Updates() {
 				verifAssert(verifBigEq(verifFold(old, i, path), oldRoot), "the returned path authenticates the previous value against the previous root")
 				verifAssert(verifBigEq(verifFold(val, i, path), newRoot), "the returned path authenticates the new value against the new root")
 			}
+		}
+	}
+}
+
+// Native-only: depths 1..32 with a sparse reference (zero-subtree chain by iterated hashing), first/last leaf and a far-apart pair.
+func VerifHarness_C18_Deep() {
+	for depth := 1; depth <= 32; depth++ {
+		zero := make([]big.Int, depth+1)
+		for i := 1; i <= depth; i++ {
+			zero[i] = verifH(zero[i-1], zero[i-1])
+		}
+		tree := NewTree(depth)
+		verifAssert(verifBigEq(tree.Root(), zero[depth]), "the empty tree has the root of the all-zero dense tree")
+		last := 1<<depth - 1
+		if depth >= 31 {
+			last = 1<<30 + 12345
+		}
+		vals := map[int]big.Int{}
+		for step, idx := range []int{0, last, last / 2, 0, last} {
+			v := *big.NewInt(int64(1000 + step))
+			if step == 3 {
+				v = *big.NewInt(0)
+			}
+			oldRoot := tree.Root()
+			old := vals[idx]
+			path := tree.Update(idx, v)
+			vals[idx] = v
+			verifAssert(len(path) == depth, "the returned path has one sibling per level")
+			if len(path) != depth {
+				return
+			}
+			verifAssert(verifBigEq(verifFold(old, idx, path), oldRoot), "the returned path authenticates the previous value against the previous root")
+			verifAssert(verifBigEq(verifFold(v, idx, path), tree.Root()), "the returned path authenticates the new value against the new root")
+			// sparse recomputation of the root from the written leaves
+			var node func(level int, pos int) big.Int
+			node = func(level int, pos int) big.Int {
+				if level == 0 {
+					return vals[pos]
+				}
+				any := false
+				for k := range vals {
+					if k>>level == pos {
+						any = true
+					}
+				}
+				if !any {
+					return zero[level]
+				}
+				return verifH(node(level-1, 2*pos), node(level-1, 2*pos+1))
+			}
+			verifAssert(verifBigEq(tree.Root(), node(depth, 0)), "Root() equals the dense recomputation from the current leaves")
 		}
 	}
 }
